@@ -248,3 +248,7 @@ impl Selector {
         io.timer.borrow_mut().replace(h);
     }
 }
+
+#[cfg(kani)]
+#[path = "/verif/harness/may/io_sys_unix_epoll.rs"]
+mod verif_kani;
